@@ -146,7 +146,7 @@ def shard(binpath, seed, sh, n):
         desc = action
         if action == "content":
             edits = list(scen.single_edits(wire["signed"], rng, None))
-            special = [e for e in edits if e[0].startswith(("respell@", "match_prefix@", "respell_key@", "tagged_spelling@", "add_member@", "insert_empty@"))]
+            special = [e for e in edits if e[0].startswith(("respell@", "match_prefix@", "respell_key@", "tagged_spelling@", "add_member@", "insert_empty@", "time_shift@"))]
             mp = [e for e in edits if e[0].startswith("match_prefix@")]
             if sc.get("tolerant_match") and mp:
                 content_edit, newdoc = rng.choice(mp)
@@ -279,11 +279,57 @@ def shard(binpath, seed, sh, n):
     return res
 
 
+def expiry_moved(binpath, seed):
+    """layouts that expire around a New Year (where calendar year and week-numbering year part), in leap years, at month
+    ends: the expiry moved by exactly one year / month / day after signing is a change of content like any other"""
+    rng = common.rng_for(seed, PROP, 5100)
+    W = scen.World(binpath)
+    res = common.Result()
+    instants = scen.year_edge_instants() + ["2028-02-29T00:00:00Z", "2031-03-31T23:59:59Z", "2040-12-31T23:59:59Z", "2027-06-15T12:00:00Z"]
+    plans, reqs = [], []
+    for t in instants:
+        layout, plan = pipeline.valid_layout(rng, W, nsteps=1, expires=t)
+        links = pipeline.valid_links(rng, W, plan)
+        plans.append((t, len(reqs), links))
+        reqs.append((layout, ["ed0"], "new"))
+        for l in links:
+            reqs.append((l["doc"], l["signers"], "new"))
+    wires = scen.sign_all(binpath, reqs, nproc=1)
+    cases = []
+    keys = [[W.kid("ed0"), W.pub("ed0")]]
+    now_year = 2027
+    for t, base, links in plans:
+        lw = wires[base]
+        files = pipeline.assemble(W, lw, list(zip(links, wires[base + 1: base + 1 + len(links)])))
+        cases.append(scen.verify_case(lw, keys, files, meta={"expect": "accept", "t": t, "to": t}))
+        for alt in scen.time_shifts(lw["signed"]["expires"]):
+            if int(alt[:4]) < now_year:
+                continue                      # an expiry in the past is refused for that reason
+            w = copy.deepcopy(lw)
+            w["signed"]["expires"] = alt
+            cases.append(scen.verify_case(w, keys, files, orig_layout=lw, meta={"expect": "reject", "t": t, "to": alt}))
+    obs = common.run_sharded(binpath, cases)
+    for c, o in zip(cases, obs):
+        m = c["meta"]
+        if scen.harness_failed(o):
+            res.inconclusive.append(f"executor failure: {str(o)[:200]}")
+            continue
+        ok = o["runs"][0]["v"] == "ok"
+        if ok and m["expect"] == "reject":
+            res.violate("accept:expiry_moved_after_signing", f"final-product verification succeeded although the layout's expiry was moved from {m['t']} to {m['to']} "
+                        f"after signing (the owner signed {m['t']})", c, o, "reject")
+        if not ok and m["expect"] == "accept":
+            res.inconclusive.append(f"expiry_moved positive control rejected: {o['runs'][0].get('e')} ({m['t']})")
+        res.note([c["layout"]], True, cls=["expiry_moved:" + ("control" if m["expect"] == "accept" else "moved"), "expiry_moved:" + ("accepted" if ok else "rejected")])
+    return res
+
+
 def main(ctx):
     res = common.Result()
     n = 150 if not ctx.thorough else 2500
     for p in common.pmap(shard, [(ctx.bin, ctx.seed, s, n) for s in range(common.NPROC)]):
         res.merge(p)
+    res.merge(expiry_moved(ctx.bin, ctx.seed))
     for p in common.pmap(crowd.owners, [(ctx.bin, ctx.seed, PROP, s, 7 if not ctx.thorough else 42) for s in range(4 if not ctx.thorough else common.NPROC)]):
         res.merge(p)
     return common.finish(
@@ -294,7 +340,7 @@ def main(ctx):
              "leaves/containers of the signed layout; signature flip/truncate/empty/zero/relabel/other-content/drop/swap/"
              "dup}; non-trivial = at least one signer or one supplied key; distinct by SHA-256 of (wire layout, key map)",
         assumptions=["signature validity ground truth is by construction", "value equality for 'semantics-preserving' is the library's PartialEq"],
-        required=["action:sig:sibling_scheme", "crowd:owners:missing", "crowd:owners:flipped", "crowd:owners:foreign", "crowd:owners:all", "crowd:size:48", "crowd:size:33", "crowd:accepted", "positive_control_accepted", "positive:ed", "positive:ec", "positive:rsa", "map:empty", "map:two_ids",
+        required=["expiry_moved:control", "expiry_moved:moved", "expiry_moved:accepted", "expiry_moved:rejected", "action:sig:sibling_scheme", "crowd:owners:missing", "crowd:owners:flipped", "crowd:owners:foreign", "crowd:owners:all", "crowd:size:48", "crowd:size:33", "crowd:accepted", "positive_control_accepted", "positive:ed", "positive:ec", "positive:rsa", "map:empty", "map:two_ids",
                   "map:superset", "map:disjoint", "map:subset", "map:plus_unknown_scheme_key", "action:content:set", "action:sig:flip", "action:sig:relabel",
                   "action:sig:other_content", "action:sig:drop", "action:sig:resign_by_other", "expect:reject", "observed:reject", "history:genuine_layout_verified_first:True",
                   "summary_name_given:accept", "summary_name_given:reject", "in_memory_edit:rekey_swap:effective", "in_memory_edit:readme:effective"],
